@@ -408,13 +408,19 @@ func c06Exec(op string) Result {
 	}
 }
 
-func c06Emit(emit func(string), name string, decls []string) {
+// c06Emit runs the program and emits reset + prog + its monitor ops; with maxOps > 0 a
+// program with more monitor ops is dropped (nothing emitted, false returned)
+func c06Emit(emit func(string), name string, decls []string, maxOps int) bool {
+	tr := c06Run(decls)
+	if maxOps > 0 && len(tr.ops) > maxOps {
+		return false
+	}
 	emit("reset")
 	emit(c06ProgOp(name, decls))
-	tr := c06Run(decls)
 	for _, op := range tr.ops {
 		emit(op)
 	}
+	return true
 }
 
 func init() {
@@ -423,7 +429,7 @@ func init() {
 		Rule: "fixed escape-pattern programs x parameter grid first, then seeded random programs (functions with named/multiple/variadic results, methods, nested closures escaping through results/slices/globals/callbacks, closures in loops, &local on int-like variables, recursion deeper than the pool, break/continue/return out of blocks, panics through frames with recover); each program = reset + prog + its monitor ops. Non-trivial: prog ops; distinct by program text.",
 		Gen: func(r *rand.Rand, tier string, emit func(string)) {
 			t0 := time.Now()
-			c06Gen(r, tier, func(name string, decls []string) { c06Emit(emit, name, decls) })
+			c06Gen(r, tier, func(name string, decls []string, maxOps int) bool { return c06Emit(emit, name, decls, maxOps) })
 			if os.Getenv("C06_DEBUG") != "" {
 				fmt.Fprintf(os.Stderr, "C06 gen: %v\n", time.Since(t0))
 			}
